@@ -39,10 +39,10 @@ RULE = ("histories from a stateful generator that tracks the builder contract (m
         "reuse, Copy, lookups, subset matches, FocusedTransform, dag-cbor encode, walks, AsLargeBytes readers kept alive (partial reads, "
         "seeks, interleaved with no re-dump in between), nodes from dag-cbor/dag-json decoders and a "
         "foreign node implementation; plus a fixed corpus of witnesses; plus (oracle level only, no model) bindnode and gendemo nodes of 0-100 "
-        "elements whose every handed-out child is held and re-dumped while iterating, looking up, copying, encoding; distinct = distinct script; non-trivial = more than 3 calls")
+        "elements whose every handed-out child is held and re-dumped while iterating, looking up, copying, encoding (also basicnode maps/lists through this route); every dump of every history retains the key and value nodes its iterators yield and re-reads them after the iteration and after later steps, incl. LookupByNode with retained keys; distinct = distinct script; non-trivial = more than 3 calls")
 EXPLANATION = ("verdict per case: on a Legal history any node register whose re-dump differs from its first dump, or whose two dumps taken "
                "at one step differ, is a failure; class streambytes_second_read when the node contains a streamBytes and only bytes "
-               "tokens differ, else node_changed / read_not_repeatable. Histories after a misuse step are vacuous for the oracle but "
+               "tokens differ, else node_changed / read_not_repeatable; iterator_node_changed when a key/value node an iterator handed out reads differently after further Next() calls or later steps. Histories after a misuse step are vacuous for the oracle but "
                "still compared with the model.")
 
 
